@@ -149,6 +149,9 @@ def check_case(case):
         shared = SP0(seq)     # ONE live object answers every configuration of this word (locality uses fresh objects)
         wins = range(1, N + 2) if not case.get("medium") else sorted({1, 3, 5, 10, N // 2, N, N + 1})
         steps = range(1, N + 1) if not case.get("medium") else (1, 2, 7)
+        import zlib
+        if zlib.crc32(seq.encode()) % 4 == 0:
+            wins = [N + 1] + list(wins)     # the rejected too-long window FIRST on the shared object, valid windows afterwards
         for size, ua_name, ua in confs:
             for w in wins:
                 for s in steps:
